@@ -26,6 +26,7 @@ import (
 
 	"github.com/go-co-op/gocron/v2"
 	"github.com/rs/zerolog"
+	"gocloud.dev/gcerrors"
 	"golang.org/x/exp/maps"
 
 	"github.com/dadrus/heimdall/internal/config"
@@ -165,12 +166,17 @@ func (p *provider) watchChanges(ctx context.Context, rsf RuleSetFetcher) error {
 			Str("_endpoint", rsf.ID()).
 			Msg("Failed to fetch rule set")
 
-		if errors.Is(err, heimdall.ErrInternal) || errors.Is(err, heimdall.ErrConfiguration) {
+		switch {
+		case gcerrors.Code(err) == gcerrors.NotFound:
+			// the blob referenced by the endpoint does not exist (any more). That
+			// is handled the same way, as if there would be no rule sets in the bucket
+			ruleSets = nil
+		case errors.Is(err, heimdall.ErrInternal) || errors.Is(err, heimdall.ErrConfiguration):
 			return err
+		default:
+			// communication issues: the rule sets received from that bucket so far are preserved
+			return nil
 		}
-
-		// communication issues: the rule sets received from that bucket so far are preserved
-		return nil
 	}
 
 	state := p.getBucketState(rsf.ID())
